@@ -50,6 +50,9 @@ ASSUMPTIONS = ["driver transport; case texts never contain a tracked operator na
                "ISO/IEC 13211-1 8.14.3 + Cor.2 rules as coded in this module (bar only infix >= 1001 or 0; [] and {} not creatable)",
                "the default entry of '|' is taken from the implementation (Cor.2 does not oblige a predefined bar operator)",
                "op(P,T,[]) may either succeed without effect (empty list) or raise permission_error(create,operator,[])",
+               "every history starts by restoring the default table including a canonical set of priority-0 directory entries, so a "
+               "verdict never depends on what ran earlier on the same machine; an inspection verdict is issued only if it is reproduced "
+               "on a freshly built machine",
                "parse probes: a text with exactly one strict ISO parse must read as that term; a text with no strict parse may "
                "raise a syntax error or yield any lenient parse (operator atoms as operands); ambiguous texts are not judged"]
 MIN_OUTCOMES = 4
@@ -587,6 +590,16 @@ def run_shard(w, shard, tier):
             return
         reached, all_entries, queries, probes_obs = data
         probs = check_inspection(reached, all_entries, queries, probes_obs)
+        if probs:
+            # a verdict is only issued if it is reproduced on a freshly built machine
+            # (the runner replays it in a fresh worker): rebuild, replay, inspect again
+            ctx.w.new_machine()
+            data2, abn2 = run_inspect(ctx, hist, entries)
+            kinds2 = set(k for (k, _, _) in check_inspection(*data2)) if data2 else set()
+            dropped = [p for p in probs if p[0] not in kinds2]
+            if dropped:
+                acc.extra["inspection_verdicts_not_reproduced_on_fresh_machine"] += len(dropped)
+            probs = [p for p in probs if p[0] in kinds2]
         acc.case(True, "inspect:%s" % ("ok" if not probs else "violations"),
                  sample=None if len(acc.samples) >= 3 else {"history": [show_tr(t) for t in hist], "state": str(sorted(reached, key=repr)),
                                                             "queries": len(queries), "probes": len(probes_obs)})
